@@ -734,6 +734,14 @@ POSITIONS = [
     ('tree.str-leaf', PRE_CF, 'Cf({P}, [1, {P}])', [], 'str'),
     ('tree.str-leaf', PRE_CF, "pg.Dict(a=Cf({P}, ['x']), b=[Cf('y', [{P}])])", [], 'str'),
     ('tree.contextual', PRE_CTX, 'pg.Dict(c=Ch(), s={P})', [], 'str'),
+    # user hook that suppresses some children (`value_cell is None`)
+    ('tree.str-leaf', '', "{{'a': 1, 'b': {P}}}",
+     [('key_style', "'label'"),
+      ('extra_flags', "dict(render_value_fn=lambda self, value, **kw: None if value == 1 else "
+                      "pg.views.HtmlTreeView.render(self, value=value, **kw))")], 'str'),
+    ('tree.debug-info', '', "{{'a': 1, 'b': [1]}}",
+     [('key_style', "'label'"), ('title', "'t'"),
+      ('extra_flags', "dict(n={P}, render_value_fn=lambda self, value, **kw: None)")], 'none'),
     # the view object's own methods
     ('tree.str-leaf', '', '{P}', [], 'str', 'view.simple_value'),
     ('tree.str-leaf', '', '{P}', [], 'str', 'view.content'),
@@ -1147,6 +1155,8 @@ CONTROL_POSITIONS = [
     ('controls.tooltip.content', "C.Tooltip({P}, for_element='#y', id='t1', css_classes=['b'])", 'tip'),
     ('controls.tooltip.content', "C.TabControl([C.Tab(C.Label('a', {P}), pg.Html('<i>x</i>'))])", 'tip'),
     ('controls.tooltip.content', "pg.Dict(l=C.Label('t', {P}))", 'tip'),
+    ('controls.tooltip.content', "C.Label(pg.Html('<b>ok</b>'), {P}, 'http://x/?a=1')", 'tip'),
+    ('controls.tooltip.content', "C.LabelGroup([C.Label('x', pg.Html('<i>tip</i>')), C.Label('y', {P})])", 'tip'),
     # link of a label (attribute value)
     ('controls.label.link', "C.Label('t', link={P})", 'attr'),
     ('controls.label.link', "C.Label('t', 'tip', {P}, target='_blank')", 'attr'),
@@ -1347,8 +1357,14 @@ def drv_scoping(tier, seed):
       'obj': lambda: eval("In('q', 9)", dict(ns)),  # pylint: disable=eval-used
   }
 
-  def base(v, **kw):
+  def raw(v, **kw):
     return pg.to_html_str(v, content_only=True, **kw)
+
+  def base(v, **kw):
+    try:
+      return raw(v, **kw)
+    except Exception as e:  # pylint: disable=broad-except
+      return 'RAISED %s: %s' % (type(e).__name__, e)
 
   def sane(s):
     doc = parse_html(s)
@@ -1403,13 +1419,13 @@ def drv_scoping(tier, seed):
       raise Boom()
 
   raisers = [
-      ('key_color', lambda v: base(v, key_style='label', key_color=boom)),
-      ('summary_color', lambda v: base(v, name='nm', summary_color=boom)),
-      ('include_keys', lambda v: base(pg.Dict(x=v), include_keys=boom)),
-      ('highlight', lambda v: base(pg.Dict(x=v), highlight=boom)),
-      ('uncollapse', lambda v: base(pg.Dict(x=v), collapse_level=0, uncollapse=boom)),
-      ('repr', lambda v: base(pg.Dict(x=v, bad=Bad()))),
-      ('view_options+key_style', lambda v: _in_scope(dict(collapse_level=None), lambda: base(
+      ('key_color', lambda v: raw(v, key_style='label', key_color=boom)),
+      ('summary_color', lambda v: raw(v, name='nm', summary_color=boom)),
+      ('include_keys', lambda v: raw(pg.Dict(x=v), include_keys=boom)),
+      ('highlight', lambda v: raw(pg.Dict(x=v), highlight=boom)),
+      ('uncollapse', lambda v: raw(pg.Dict(x=v), collapse_level=0, uncollapse=boom)),
+      ('repr', lambda v: raw(pg.Dict(x=v, bad=Bad()))),
+      ('view_options+key_style', lambda v: _in_scope(dict(collapse_level=None), lambda: raw(
           pg.Dict(x=v), key_style=boom))),
   ]
 
@@ -1473,9 +1489,25 @@ def drv_scoping(tier, seed):
     _record(rec, 'scoping.threads/options-isolated', rd,
             res.get('a') == want1 and res.get('b') == want2,
             'concurrent renderings with different scoped options influence each other',
-            '# two threads, each: with pg.view_options(**own): pg.to_html_str(v, highlight=<callback that waits>)')
+            _W_THREADS)
   return rec.result()
 
+
+_W_THREADS = '''import pyglove as pg, threading
+v = pg.Dict(a='x', b=[1])
+f = lambda **k: pg.to_html_str(v, content_only=True, **k)
+o = [dict(key_style='label'), dict(max_summary_len_for_str=0)]
+want = [f(**o[0]), f(**o[1])]; got = [None, None]; bar = threading.Barrier(2)
+def sync(k, x, p):
+  try: bar.wait(0.05)
+  except threading.BrokenBarrierError: pass
+  return False
+def work(i):
+  with pg.view_options(**o[i]): got[i] = f(highlight=sync)
+ts = [threading.Thread(target=work, args=(i,)) for i in (0, 1)]
+[t.start() for t in ts]; [t.join() for t in ts]
+assert got == want
+'''
 
 DRIVERS = [drv_positions, drv_option_pairs, drv_controls, drv_scoping]
 
